@@ -45,13 +45,22 @@ pub fn in_child(cpu_secs: u64, wall_secs: u64, f: impl FnOnce() -> Vec<u8>) -> C
             let zero = libc::rlimit { rlim_cur: 0, rlim_max: 0 };
             libc::setrlimit(libc::RLIMIT_CORE, &zero);
         }
-        std::panic::set_hook(Box::new(|_| {}));
+        static LOC: std::sync::Mutex<String> = std::sync::Mutex::new(String::new());
+        std::panic::set_hook(Box::new(|info| {
+            if let (Some(l), Ok(mut g)) = (info.location(), LOC.lock()) {
+                // keep the path relative to the crate so signatures are stable
+                let f = l.file();
+                let f = f.rsplit_once("/src/").map(|x| x.1).unwrap_or(f);
+                *g = format!("src/{}:{}", f, l.line());
+            }
+        }));
         let r = catch_unwind(AssertUnwindSafe(f));
         let (code, bytes) = match r {
             Ok(b) => (0, b),
             Err(p) => {
                 let msg = p.downcast_ref::<String>().cloned().or_else(|| p.downcast_ref::<&str>().map(|s| s.to_string())).unwrap_or_else(|| "panic".into());
-                (EXIT_PANIC, msg.into_bytes())
+                let loc = LOC.lock().map(|g| g.clone()).unwrap_or_default();
+                (EXIT_PANIC, format!("{} @ {}", msg, loc).into_bytes())
             }
         };
         unsafe {
